@@ -22,7 +22,7 @@ RULE = ("sampler class {MiniPCNSMC, EmceeSMC, BlackJAXSMC, Emcee, MiniPCN} x pre
         "{1e-6,0.3,1} x z grid {0,+-0.5,+-3,+-12,+-40}^d (d=1,2; saturating values only where the map is not saturated) x user "
         "functions {smooth, likelihood NaN outside prior, likelihood -inf on a half-line, proposal -inf off a window}; oracle: "
         "(1-beta) q(x)+beta(L(x)+pi(x))+log|det dx/dz| with x and the Jacobian obtained from the sampler's own inverse map by "
-        "central differences; zero prior => exactly -inf; NaN => -inf (SMC). Plus: in real runs the function handed to the "
+        "central differences (for the pure logit map also the far tails z in {+-16, +-25, 30}, beyond the forward map's clipping margin, against the closed-form Jacobian); zero prior => exactly -inf; NaN => -inf (SMC). Plus: in real runs the function handed to the "
         "kernel is probed at every invocation and must be the target at the temperature just recorded. "
         "non-trivial = point with finite target under a non-identity map or a zero-prior / NaN point")
 ASSUMPTIONS = [
@@ -112,10 +112,23 @@ def zgrid(precond, d, tier):
     if precond == "periodic":
         # keep clear of the seam (z == lower/upper), where the wrapped map is not differentiable
         vals = [0.37, 0.87, -0.13, 3.37, -2.63, 5.87, 12.37, -11.63, 40.37, -39.63]
+    # far tails of the logit coordinate (beyond the clipping margin of the forward map: kernels propose there);
+    # the reference log-Jacobian is analytic for these points
+    tails = [16.0, -16.0, 25.0, -25.0, 30.0] if precond == "logit" else []
     if d == 1:
-        return np.array(vals).reshape(-1, 1)
+        return np.array(vals + tails).reshape(-1, 1)
     pts = [(a, b) for a in vals[:7] for b in vals[:5]] + [(vals[-1], vals[1]), (vals[1], vals[-1])]
+    if tails:
+        pts += [(16.0, 0.5), (-25.0, -0.5), (0.5, 30.0), (25.0, -16.0)]
     return np.array(pts)
+
+
+def logit_logdet(z, lo, hi):
+    """log|det dx/dz| of x = lo + (hi - lo) * sigmoid(z), stable for any z."""
+    tot = 0.0
+    for y, l, h in zip(z, lo, hi):
+        tot += math.log(h - l) - abs(y) - 2 * math.log1p(math.exp(-abs(y)))
+    return tot
 
 
 def fd_logdet(inv, z, h=1e-5):
@@ -215,7 +228,11 @@ def run_config(arg):
                     if got != -math.inf:
                         r.violation(f"C05/{cls}/neginf-target-not-neginf/{precond}", {"got": got, "L": L, "Q": Q}, c)
                     continue
-                ld = fd_logdet(inv_np, z, h=3e-3 if precond == "flow" else 1e-5)
+                if precond == "logit" and np.max(np.abs(z)) > 8.0:
+                    ld = logit_logdet(z, lo, hi)
+                    r.count("analytic-logit-tail-points")
+                else:
+                    ld = fd_logdet(inv_np, z, h=3e-3 if precond == "flow" else 1e-5)
                 want = base + ld
                 r.outcomes.add(round(want, 4))
                 tol = 2e-4 * (1 + abs(ld)) + 1e-6 * abs(base) + (1e-4 * (abs(base) + 1) if ns == "torch" or kernel_ns == "jax" and False else 0)
